@@ -334,6 +334,12 @@ func (mh *mwHandler) ServeDNS(
 			"asn", loc.ASN,
 			"subnet", cr.subnet,
 		)
+
+		// Treat the requests from the locations without a subnet the same way
+		// as the ones that decline ECS, since the upstream's response to a
+		// zero-length prefix is the one that isn't tailored to any subnet and
+		// must not be served to the clients from the locations with subnets.
+		cr.isECSDeclined = cr.subnet.Bits() == 0
 	}
 
 	// Try getting a cached result using the subnet of the location or zero one
